@@ -85,3 +85,18 @@ for _pid, _txt in {
         "text": "2.4k (quick) / ~10^5 (thorough) generated robots x random driver-station histories; the monitor checks " + _txt + ".",
         "note": _RB_NOTE,
     }
+
+CHECKS["C08"] = {
+    "engine": "p_inject",
+    "technique": "runtime monitor: generated robot definitions through the real robotInit(), identity (is) of every injected attribute observed inside the first setup() and afterwards, against a resolution function written from the statement",
+    "ref": "DESIGN.md section 5 (C08)",
+    "text": "1.8k (quick) / 1.6*10^5 (thorough) generated robots: components with own/inherited annotations and constructor parameters, autonomous modes as targets, robot attributes at class level / inherited class / createObjects, relations {absent, plain, prefixed, both, wrong type, subclass, bool-for-int, falsy, None, preset on class, set in __init__, private, generic alias, other component earlier/later}; expected outcome inject(obj) / untouched / MagicInjectError per attribute; observed by identity before any setup() finished and after robotInit().",
+    "note": "robot attribute == None is generated only where both readings of 'if there is none' agree; with several erroneous attributes any of their errors may surface",
+}
+CHECKS["C09"] = {
+    "engine": "p_tunable",
+    "technique": "runtime monitor: last-writer register per (instance, attribute) over random interleavings of python-side and NetworkTables-side reads/writes through independent typed publishers/subscribers",
+    "ref": "DESIGN.md section 5 (C09)",
+    "text": "Generated owner classes with tunables of every supported type (bool, int, float, str, bytes, struct, arrays, type-hinted empty sequences in three spellings), subtables, writeDefault on/off, pre-existing topic values, bound directly (components / autonomous / no prefix) or through a real MagicRobot (component, autonomous mode, the robot itself), 1-3 instances per class; the monitor checks the topic path and type string, the initial value, and that every read on either side returns the latest write from either side; instances never alias.",
+    "note": "values written are always of the topic's own type; local NetworkTables with the clock paused",
+}
